@@ -1,4 +1,6 @@
 import Bec2Verif.Lemmas.Der
+import Mathlib.Tactic.Ring
+import Mathlib.Tactic.Linarith
 /-!
 OBJECT IDENTIFIER: `remove_object ∘ encode_oid = id` for every OID the encoder is defined on (first arc 0 or 1 with
 second arc < 40, or first arc 2), followed by arbitrary data.
@@ -40,8 +42,151 @@ theorem readNumberLoop_digits (hi : List Nat) (lo : Nat) (rest : Bytes) (number 
       rw [hv]
       simp only [List.length_cons, Prod.mk.injEq]
       refine ⟨?_, by omega⟩
-      rw [Nat.pow_succ (n := ds.length + 1), Nat.pow_succ (n := ds.length)]
-      ring_nf
-      omega
+      ring
+
+theorem lt_pow128 (n : Nat) : n < 128 ^ (n + 1) := by
+  have h1 : n < 2 ^ n := Nat.lt_two_pow_self
+  have h2 : 2 ^ n ≤ 128 ^ (n + 1) := by
+    calc 2 ^ n ≤ 128 ^ n := Nat.pow_le_pow_left (by omega) n
+      _ ≤ 128 ^ (n + 1) := Nat.pow_le_pow_right (by omega) (by omega)
+  omega
+
+/-- the shape of `encode_number(n)`: continuation digits, then one final digit below 128; value `n`; never starts with 0x80 -/
+theorem encodeNumber_shape (n : Nat) : ∃ hi lo, encodeNumber n = (hi ++ [lo]).map UInt8.ofNat ∧
+    (∀ d ∈ hi, 128 ≤ d ∧ d < 256) ∧ lo < 128 ∧ val128 hi * 128 + lo = n ∧ hi.head? ≠ some 128 := by
+  unfold encodeNumber
+  by_cases hn : n = 0
+  · subst hn
+    refine ⟨[], 0, by decide, by simp, by omega, by simp [val128], by simp⟩
+  · obtain ⟨hv, hall, hhead, hne, _⟩ := b128Aux_spec (n + 1) n [] (lt_pow128 n) (by simp)
+    have hpos : 0 < n := by omega
+    generalize b128Aux (n + 1) n [] = ds at hv hall hhead hne
+    have hne' := hne hpos
+    have hemp : ds.isEmpty = false := by cases ds with | nil => exact absurd rfl hne' | cons _ _ => rfl
+    simp only [hemp, Bool.false_eq_true, if_false]
+    obtain ⟨hi, last, rfl⟩ : ∃ hi last, ds = hi ++ [last] := by
+      rcases List.eq_nil_or_concat ds with h | ⟨hi, last, h⟩
+      · exact absurd h hne'
+      · exact ⟨hi, last, by simpa using h⟩
+    refine ⟨hi, last % 128, ?_, fun d hd => hall d (by simp [hd]), Nat.mod_lt _ (by omega), ?_, ?_⟩
+    · simp
+    · simp only [List.length_nil, pow_zero, mul_one, val128, List.foldl_nil, add_zero] at hv
+      have := val128_append hi [last]
+      simp only [List.length_cons, List.length_nil, val128] at this hv
+      simp only [List.foldl_cons, List.foldl_nil, zero_mul, zero_add] at this
+      rw [← hv, this]
+      simp [val128]
+    · intro h
+      have := hhead hpos
+      cases hi with
+      | nil => simp at h
+      | cons x xs =>
+        simp only [List.head?_cons, Option.some.injEq] at h
+        simp only [List.cons_append, List.head?_cons, Option.getD_some] at this
+        exact this h
+
+theorem readNumber_encodeNumber (n : Nat) (rest : Bytes) :
+    readNumber (encodeNumber n ++ rest) = .ok (n, (encodeNumber n).length) := by
+  obtain ⟨hi, lo, henc, hhi, hlo, hval, hhead⟩ := encodeNumber_shape n
+  rw [henc]
+  have hfirst : ∃ b0 tl, (hi ++ [lo]).map UInt8.ofNat ++ rest = b0 :: tl ∧ b0.toNat ≠ 0x80 := by
+    cases hi with
+    | nil =>
+      refine ⟨UInt8.ofNat lo, rest, by simp, ?_⟩
+      rw [ofNat_toNat_lt lo (by omega)]; omega
+    | cons x xs =>
+      refine ⟨UInt8.ofNat x, (xs ++ [lo]).map UInt8.ofNat ++ rest, by simp, ?_⟩
+      rw [ofNat_toNat_lt x (hhi x (by simp)).2]
+      intro h
+      exact hhead (by simp [h])
+  obtain ⟨b0, tl, hcons, hb0⟩ := hfirst
+  unfold readNumber
+  rw [hcons]
+  simp only [hb0, if_false]
+  rw [← hcons, readNumberLoop_digits hi lo rest 0 0 _ hhi hlo (by simp; omega)]
+  simp only [zero_mul, zero_add, List.length_map, List.length_append, List.length_cons, List.length_nil, hval]
+
+theorem encodeNumber_ne_nil (n : Nat) : encodeNumber n ≠ [] := by
+  obtain ⟨hi, lo, henc, _⟩ := encodeNumber_shape n
+  rw [henc]; simp
+
+/-- the sub-identifiers of an OID body are read back one by one -/
+theorem readNumbers_encode (ns : List Nat) (acc : List Nat) (fuel : Nat) (hf : ns.length < fuel) :
+    readNumbers fuel (ns.map encodeNumber).flatten acc = .ok (acc.reverse ++ ns) := by
+  induction ns generalizing acc fuel with
+  | nil =>
+    cases fuel with
+    | zero => omega
+    | succ f => simp [readNumbers]
+  | cons n ns ih =>
+    cases fuel with
+    | zero => omega
+    | succ f =>
+      unfold readNumbers
+      simp only [List.map_cons, List.flatten_cons]
+      have hne : (encodeNumber n ++ (ns.map encodeNumber).flatten).isEmpty = false := by
+        have := encodeNumber_ne_nil n
+        cases h : encodeNumber n with
+        | nil => exact absurd h this
+        | cons _ _ => rfl
+      simp only [hne, Bool.false_eq_true, if_false, readNumber_encodeNumber, bind, Except.bind, List.drop_left]
+      rw [ih (n :: acc) f (by simpa using hf)]
+      simp
+
+/-- **OBJECT IDENTIFIER round trip** for every OID with first arc 0, 1 (second arc < 40) or 2 -/
+theorem removeObject_encodeOid (first second : Nat) (pieces : List Nat) (rest : Bytes)
+    (harc : (first < 2 ∧ second < 40) ∨ first = 2)
+    (henc : Encodable (encodeNumber (40 * first + second) ++ (pieces.map encodeNumber).flatten).length) :
+    removeObject (encodeOid first second pieces ++ rest) = .ok (first :: second :: pieces, rest) := by
+  have hform : encodeOid first second pieces = 0x06 :: (encodeLength
+      (encodeNumber (40 * first + second) ++ (pieces.map encodeNumber).flatten).length ++
+      (encodeNumber (40 * first + second) ++ (pieces.map encodeNumber).flatten)) := rfl
+  rw [hform]
+  generalize hbody : encodeNumber (40 * first + second) ++ (pieces.map encodeNumber).flatten = body at henc ⊢
+  unfold removeObject
+  simp only [List.cons_append, List.append_assoc, bne_self_eq_false, Bool.false_eq_true, if_false]
+  rw [readLength_encodeLength _ _ henc]
+  simp only [bind, Except.bind]
+  have hs := sliceBody_spec 0x06 (encodeLength body.length) body rest
+  rw [hs]
+  simp only
+  have hne : body.isEmpty = false := by
+    rw [← hbody]
+    have := encodeNumber_ne_nil (40 * first + second)
+    cases h : encodeNumber (40 * first + second) with
+    | nil => exact absurd h this
+    | cons _ _ => rfl
+  simp only [hne, Bool.false_eq_true, if_false, bne_self_eq_false]
+  have hflat : body = (((40 * first + second) :: pieces).map encodeNumber).flatten := by
+    rw [← hbody]; simp
+  have hlenb : pieces.length + 1 < body.length + 1 := by
+    -- every number takes at least one byte
+    have : ∀ l : List Nat, l.length ≤ (l.map encodeNumber).flatten.length := by
+      intro l
+      induction l with
+      | nil => simp
+      | cons x xs ih =>
+        have := encodeNumber_ne_nil x
+        simp only [List.map_cons, List.flatten_cons, List.length_append, List.length_cons]
+        have : 1 ≤ (encodeNumber x).length := by
+          cases h : encodeNumber x with
+          | nil => exact absurd h ‹_›
+          | cons _ _ => simp
+        omega
+    have := this ((40 * first + second) :: pieces)
+    rw [← hflat] at this
+    simp only [List.length_cons] at this
+    omega
+  rw [hflat, readNumbers_encode _ [] _ (by rw [← hflat]; simpa using hlenb)]
+  simp only [List.reverse_nil, List.nil_append, pure, Except.pure]
+  rcases harc with ⟨h1, h2⟩ | h1
+  · have hlt : 40 * first + second < 80 := by omega
+    have hd : (40 * first + second) / 40 = first := by omega
+    have hsub : 40 * first + second - 40 * first = second := by omega
+    simp only [hlt, if_true, hd, hsub]
+  · subst h1
+    have hge : ¬ (40 * 2 + second < 80) := by omega
+    have hsub : 40 * 2 + second - 40 * 2 = second := by omega
+    simp only [hge, if_false, hsub]
 
 end Bec2Verif.Der
